@@ -214,6 +214,9 @@ fn format_image_geo_only(total: u32, bps: u16, opts: FormatVolumeOptions) -> Opt
 /// free set: a few at the start, a few in the middle, and the very last cluster
 pub fn pick_free(g: &Geo, img: &[u8], n: usize) -> Vec<u32> {
     let free: Vec<u32> = (2..=g.max_cluster()).filter(|c| get_fat(img, g, 0, *c) == 0).collect();
+    if n == 0 {
+        return Vec::new();
+    }
     if free.len() <= n {
         return free;
     }
